@@ -23,7 +23,7 @@ ASSUMPTIONS = [
 ]
 PLAN = {
     "quick": {"shards": 8, "shard_timeout": 300, "case_timeout": 30, "maxlen": 6, "alg": 500, "max_case_timeouts": 3},
-    "thorough": {"shards": 16, "shard_timeout": 3600, "case_timeout": 300, "maxlen": 8, "alg": 40000, "max_case_timeouts": 10},
+    "thorough": {"shards": 16, "shard_timeout": 3600, "case_timeout": 300, "maxlen": 8, "alg": 400000, "max_case_timeouts": 10},
 }
 THRESHOLDS = {
     "quick": {"tracker_histories": 4000, "registrations_checked": 20000, "algorithm_runs": 150, "alg:gp": 20, "alg:rs": 20, "alg:hc": 20, "alg:opo": 20, "histories_with_ties": 1000, "minimising": 1500},
